@@ -648,6 +648,19 @@ func main() {
 	wj.Close(st)
 	wk := &sim.CaseWriter{OutDir: *outDir, Name: "c19key", Imports: "From V Require Import Bytes Keys KeysCheck.", CaseType: "key_case", MFun: "key_mismatches", VFun: "key_violations", PerShard: 150}
 	keyCases(r.Fork(), *nKey, wk)
+	// order ids of every length class through the message checks of the three places that take one from the wire
+	wo := &sim.CaseWriter{OutDir: *outDir, Name: "c19oid", Imports: "From V Require Import Bytes Keys KeysCheck.", CaseType: "oid_case", MFun: "oid_mismatches", VFun: "oid_violations", PerShard: 200}
+	for _, n := range []int{0, 1, 19, 20, 21, 32, 64, 254, 255, 256, 257, 300, 511, 512, 513, 1000, 65536} {
+		id := bytes.Repeat([]byte{0xFE}, n)
+		del := (&fsm.MessageDeleteOrder{OrderId: id, ChainId: 2}).Check() == nil
+		edit := (&fsm.MessageEditOrder{OrderId: id, ChainId: 2, AmountForSale: 5, RequestedAmount: 5, SellerReceiveAddress: bytes.Repeat([]byte{1}, 20)}).Check() == nil
+		for _, acc := range []bool{del, edit} {
+			wo.Add(fmt.Sprintf("mkOid %d %s", n, sim.CoqBool(acc)), map[string]any{"kind": "order-id-check", "len": n, "accepted": acc})
+			st.Cases++
+			st.ByKind["order-id-check"]++
+		}
+	}
+	wo.Close(st)
 	corpusRuns(*corpus, *outDir)
 	decoderRuns(r.Fork(), *nDec, *outDir)
 	ethCallDataRuns(r.Fork(), *outDir)
